@@ -32,7 +32,7 @@ var c14Pools = map[string][]string{
 	"libfunc": {"Err", "Cleanup", "NewGamma", "Alpha", "Init"},
 	"func":    {"err", "cleanup", "gamma", "alpha", "alib", "newAlpha", "res", "agg"},
 	"field":   {"Err", "Cleanup", "err", "cleanup", "Alpha"},
-	"param":   {"err", "cleanup", "cleanup2", "_", "-", "alpha", "gamma", "gamma2", "alib", "blib", "string", "len", "res", "agg", "val", "argT", "arg"},
+	"param":   {"err", "err2", "cleanup", "cleanup2", "_", "-", "alpha", "gamma", "gamma2", "alib", "blib", "string", "len", "res", "agg", "val", "argT", "arg"},
 	"decl":    {"err", "err2", "cleanup", "cleanup2", "cleanup3", "alpha", "alpha2", "gamma", "beta", "res", "agg", "agg2", "alib", "alib2", "blib", "_wireValValue", "_wireValValue2", "string", "len", "val", "argT", "argU", "arg", "true"},
 }
 
